@@ -50,6 +50,20 @@ def families(tier, rng):
     return [("rand", rand_schedule(rng, 3, rng.choice([8, 14, 24]))) for _ in range(n)]
 
 
+def startup_races():
+    """The session ends (peer gone, reset, QUIT, server.close()) a given number of loop iterations after PASV / EPSV was sent - at
+    every scheduling point of the listener start-up, not only where it can be held; then the whole pool is asked for again."""
+    out = []
+    again = [["connect", 2], ["send", 2, "USER u2"], ["send", 2, "PASV"], ["connect", 3], ["send", 3, "USER u2"], ["send", 3, "EPSV"], ["srvclose"]]
+    for cmd in ("PASV", "EPSV"):
+        for end in (["vanish", 1], ["vanish", 1, "reset"], ["srvclose"]):
+            for a in range(0, 14):
+                for pre in ([], [["send", 1, "PASV"], ["dconnect", 1], ["send", 1, "LIST"], ["deof", 1]]):
+                    out.append([["connect", 1], ["send", 1, "USER u2"]] + pre + [["nq", ["send", 1, cmd]], ["iter", a], ["nq", end], ["tick", 0]]
+                               + (again if end != ["srvclose"] else []))
+    return out
+
+
 PLANS = [
     ([3001, 3002], {}),
     ([3001, 3002], {"3001": "inuse"}),
@@ -79,6 +93,11 @@ def run(tier, seed):
     for ports, plan in plans:
         cfg = gen.std_cfg(ns=3, usepool=True, ports=ports, port_plan=plan)
         corecheck.validate(chk, cfg, gen.STD_TREE, scheds, label="pool%d:%s" % (len(ports), sorted(plan.items())))
+    sr = startup_races()
+    for ports, plan in (([3001, 3002], {}), ([3001], {}), ([3001, 3002], {"3001": ["inuse", "ok"]}), ([], {})):
+        cfg = gen.std_cfg(ns=3, usepool=bool(ports), ports=ports, port_plan=plan)
+        corecheck.validate(chk, cfg, gen.STD_TREE, sr, label="startup-race:pool%d:%s" % (len(ports), sorted(plan.items())))
+    scheds = scheds + sr
     # a server listening on an IPv6 address: PASV opens its listener and then has no IPv4 address to give (503, session ended)
     for ports, plan in (([3001, 3002], {}), ([3001], {"3001": ["inuse", "ok"]})):
         cfg = gen.std_cfg(ns=3, usepool=True, ports=ports, port_plan=plan, v6=True)
